@@ -102,6 +102,24 @@ def make_symbolic(self, decl, name):
             k2 = self.fresh(name + "_wit", kty)
             self.path.assume(z3.Implies(size.t > 0, z3.Select(dom, k2.t)))
         return PDict(dom=dom, mp=mp, kty=kty, vty=vty, size=size)
+    if kind == "dictobj":
+        kty = _zty(decl[1])
+        dom = z3.Const(self.path.fresh_name(name + "_dom"), z3.ArraySort(zu.sort_of(kty), zu.BoolS))
+        size = None
+        if decl[4]:
+            size = self.fresh(name + "_size", "int")
+            self.path.assume(size.t >= 0)
+            k = z3.Const(self.path.fresh_name("k"), zu.sort_of(kty))
+            self.path.assume(z3.Implies(size.t == 0, z3.ForAll([k], z3.Not(z3.Select(dom, k)))))
+            k2 = self.fresh(name + "_wit", kty)
+            self.path.assume(z3.Implies(size.t > 0, z3.Select(dom, k2.t)))
+        d = PDict(dom=dom, mp=None, kty=kty, vty=None, size=size)
+        d.objmap = []
+        d.template = decl[2]
+        d.where = decl[3]
+        d.name = name
+        self.path.assumptions.add("lazy initialisation: distinct keys of an object-valued map hold distinct objects (no aliasing between entries)")
+        return d
     if kind == "set":
         kty = _zty(decl[1])
         dom = z3.Const(self.path.fresh_name(name + "_dom"), z3.ArraySort(zu.sort_of(kty), zu.BoolS))
@@ -268,6 +286,31 @@ def install_spec_builtins(ip):
         _PATH[0] = ip.path
         return ip.wrap(int_of_bytes(ip.to_z3(data), ip.to_z3(off, "int"), w, True), "int")
     B["le_at"] = Builtin("le_at", le_at)
+
+    def mk_uf(rty):
+        def f(ip, a, k):
+            name = a[0]
+            args = a[1:]
+            tys = [ip.type_of(x) for x in args]
+            sorts = [zu.sort_of(t) for t in tys]
+            fn = ufun(f"{name}", *sorts, zu.sort_of(rty))
+            return ip.wrap(fn(*[ip.to_z3(x, t) for x, t in zip(args, tys)]), rty)
+        return f
+    for nm, rty in (("uf_bool", "bool"), ("uf_int", "int"), ("uf_bytes", "bytes"), ("uf_str", "str"), ("uf_real", "real")):
+        B[nm] = Builtin(nm, mk_uf(rty))
+
+    def _assume(ip, a, k):
+        ip.assume(a[0])
+        return None
+    B["assume"] = Builtin("assume", _assume)
+
+    def _nondet_bool(ip, a, k):
+        return ip.fresh("nondet", "bool")
+    B["nondet_bool"] = Builtin("nondet_bool", _nondet_bool)
+
+    def _nondet(ip, a, k):
+        return ip.fresh("nondet", a[0] if a else "int")
+    B["nondet"] = Builtin("nondet", _nondet)
 
     B["resolve_class"] = Builtin("resolve_class", lambda ip, a, k: ip.resolve_class(a[0]))
     B["resolve_module"] = Builtin("resolve_module", lambda ip, a, k: ip.src.load_path(a[0]))
